@@ -286,7 +286,18 @@ class C08(Prop):
                "the body of every SPECIFIER alternative is mirrored by the hand-written prefix scanner Req.verForm; the "
                "translator re-checks on every run that the rule still has the shape the scanner mirrors (operators, guards, "
                "keyword lists and repetition bounds are data) and that it is literally the body of Specifier._regex (C12)"]
-    partial = []
+    partial = ["parse_render (stretch): 'parse(render x) = sem x for every white-space layout x' is not a theorem; arbitrary layouts "
+               "(white space at every wsp* position, parenthesised lists, white space after the operator) are covered by the "
+               "correspondence (req.parse / req.match on rendered structures) and by the law parts_recovered on the real code; "
+               "the theorems cover them on the *output* side: requirement_roundtrip, parse_wf, url_xor_spec, "
+               "marker_after_url_needs_ws and requirement_marker_eq_marker hold for whatever text was accepted",
+               "requirement_roundtrip assumes the marker's literals are PEP 508 strings (C09.LitOK: no backslash, CR, LF, NUL, "
+               "surrogate; not both quote characters) — the same condition as C09.constructed_marker_roundtrip",
+               "the bodies of the SPECIFIER alternatives are mirrored by the hand-written prefix scanner Req.verForm and tied by "
+               "correspondence (operators, look-behind guards, keyword lists and repetition bounds are regenerated data; the "
+               "translator re-checks the shape on every run)",
+               "canonicalize_name on non-ASCII names is the model of C13 (context-dependent final sigma not modelled); "
+               "requirement names are ASCII by the IDENTIFIER rule, only extra-literals in markers can be non-ASCII"]
     budget = {"quick": (3000, 4000), "thorough": (60000, 120000)}
 
     # ---- correspondence
